@@ -6,10 +6,10 @@ use std::time::{Instant, Duration};
 use crate::constants::UsefulConstants;
 use crate::file_definition::FileID;
 use crate::ir::declarations::{Declaration, Declarations};
-use crate::ir::degree_meta::{DegreeEnvironment, Degree, DegreeRange};
+use crate::ir::degree_meta::{DegreeEnvironment, Degree, DegreeMeta, DegreeRange, MergeControl};
 use crate::ir::value_meta::ValueEnvironment;
 use crate::ir::variable_meta::VariableMeta;
-use crate::ir::{VariableName, VariableType, SignalType};
+use crate::ir::{Statement, VariableName, VariableType, SignalType};
 use crate::ssa::dominator_tree::DominatorTree;
 use crate::ssa::errors::SSAResult;
 use crate::ssa::{insert_phi_statements, insert_ssa_variables};
@@ -477,6 +477,32 @@ impl Cfg {
         }
     }
 
+    /// Returns what is known about the condition that decides along which edge
+    /// the given basic block is entered, and hence which of the definitions
+    /// merged by its phi expressions is taken: for a loop header (a block with
+    /// a predecessor that does not come before it) this is the loop condition,
+    /// otherwise it is the condition of the if-statement which ends the
+    /// immediate dominator of the block.
+    fn merge_control(&self, index: Index) -> MergeControl {
+        let basic_block = &self.basic_blocks[index];
+        if basic_block.predecessors().len() < 2 {
+            return MergeControl::Constant;
+        }
+        let deciding_block = if basic_block.predecessors().iter().any(|pred| *pred >= index) {
+            Some(basic_block)
+        } else {
+            self.get_immediate_dominator(basic_block)
+        };
+        match deciding_block.and_then(|basic_block| basic_block.iter().last()) {
+            Some(Statement::IfThenElse { cond, .. }) => match cond.degree() {
+                Some(range) if range.is_constant() => MergeControl::Constant,
+                Some(_) => MergeControl::NonConstant,
+                None => MergeControl::Unknown,
+            },
+            _ => MergeControl::Unknown,
+        }
+    }
+
     /// Propagate expression degrees along the CFG.
     pub(crate) fn propagate_degrees(&mut self) {
         use Degree::*;
@@ -504,8 +530,9 @@ impl Cfg {
         while rerun {
             // Rerun degree propagation if a single child node was updated.
             rerun = false;
-            for basic_block in self.iter_mut() {
-                rerun = rerun || basic_block.propagate_degrees(&mut env);
+            for index in 0..self.basic_blocks.len() {
+                env.set_merge_control(self.merge_control(index));
+                rerun = rerun || self.basic_blocks[index].propagate_degrees(&mut env);
             }
             // Verification hook: an exhausted pass budget makes the time box below fire.
             #[cfg(circomspect_verif)]
